@@ -2,7 +2,7 @@
 SPEC = dict(
     title="Corrupt snapshot data is detected before it is used",
     pkg="./snapshot", files=["snapshot/c12_verif_test.go"],
-    rule="3 stores generated through the real API (full + 2 incrementals; full with its own WAL + a 2-WAL incremental; an older full+incremental below a newer full+incremental); "
+    rule="stores generated through the real API: 6 (thorough 16) parameterised shapes with 1..13 data files (several fulls, fulls with own WAL files, incrementals with 1..3 WAL files), every data file corrupted in turn before first use and after, then reap / open of the newest or an older snapshot / continuation; plus 3 fixed stores (full + 2 incrementals; full with its own WAL + a 2-WAL incremental; an older full+incremental below a newer full+incremental); "
          "every data file x 6 corruptions (byte flip on a page boundary region, at a random offset, in the last byte; cut by one byte; cut by a third; altered checksum sidecar) "
          "x {present before the store's first use, arising after a first successful use} x 5 consumers (open+transfer into a second real store, open+Restore, reap, "
          "restart+open+Restore, open of an older snapshot) each followed by one of 8 continuations that go on after a failing consumer (reap again; restart then each consumer; open, reap, restart, reap ...); checksum-record corruptions: every byte position of the record x 2 (thorough 6) bit masks, truncations, appended bytes, invalid JSON, empty, swapped fields, missing and unknown checksum type, alone and combined with a corruption of the covered data file, before first use and after, each followed by open, reap, restart, open, reap; an unreadable sidecar per file; random chains of 3-9 events biased to reap/restart; "
@@ -18,7 +18,7 @@ SPEC = dict(
                "C12_failed_verification_is_sticky for every store state; C12_failed_reap_leaves_store_unchanged (a refused reap changed no file and wrote no plan) and "
                "C12_no_plan_left_behind for every history; C12_unknown_record_is_rejected (fail closed on a record that cannot be used) for every store state; the model, including 'no REAP_PLAN / tmp entry in the store directory', is run against the real store after every event of every driver history.",
     level_note="Model = per-file (current, recorded, original) checksums, verifyOnce, header checksums from sidecars, receiver recomputation, reap with fix C12-reap-reverify.",
-    technique="Coq invariant proof over all event histories + differential run of model and real store + pristine-copy oracle on installed/restored/consolidated bytes",
+    technique="Coq invariant proof over all event histories and store sizes + differential run of model and real store + pristine-copy oracle on installed/restored/consolidated bytes + reference verdict computed from the files themselves",
     design_ref="6/C12",
     timeout_quick=600, timeout_thorough=7200,
 )
